@@ -73,6 +73,8 @@ type dConn struct {
 	Seed                   uint64
 	PauseAfter             int // long pause (minutes of fake time) after this many frames (-1 none)
 	PauseMin               int
+	StallAt                int // the link stalls in the middle of this frame (-1 never) ...
+	StallMs                int // ... for so long
 }
 
 func (c *dConn) header() []byte {
@@ -144,6 +146,11 @@ func genD(r *verifsim.Run) []*dConn {
 		if r.Chance(1, 3) && c.N > 0 {
 			c.PauseAfter = r.Draw(c.N)
 			c.PauseMin = r.Range(1, 3)
+		}
+		c.StallAt = -1
+		if r.Chance(1, 3) && c.N > 0 && c.FrameSize >= 2 {
+			c.StallAt = r.Draw(c.N)
+			c.StallMs = r.OneOf(1, 100, 1500, 2500, 10000, 59000)
 		}
 		out = append(out, c)
 	}
@@ -409,9 +416,27 @@ func cameraD(c *dConn, conn net.Conn, sched bool) {
 	owed := time.Duration(0)
 	for k := 0; k < c.N; k++ {
 		pending = append(pending, c.frame(k)...)
-		owed += period
+		// No camera keeps time to the nanosecond: a jitter of under a microsecond per frame (a function of the
+		// scenario, either sign) keeps frame arrivals off the exact instants of timers inside the code under
+		// test. Events on one simulated instant would be ordered by the Go runtime (select), not by the tape.
+		jit := time.Duration(verifsim.Mix(uint64(k), uint64(c.N*131+c.Fps))%999) - 499
+		if jit == 0 {
+			jit = 1
+		}
+		owed += period + jit
 		if k == c.PauseAfter {
 			owed += time.Duration(c.PauseMin) * time.Minute
+		}
+		if k == c.StallAt {
+			// the link delivers the frame up to somewhere in its middle, then nothing for a while
+			rest := append([]byte(nil), pending[len(pending)-c.FrameSize/2:]...)
+			pending = pending[:len(pending)-len(rest)]
+			if !flush(true) {
+				return
+			}
+			time.Sleep(time.Duration(c.StallMs) * time.Millisecond)
+			yield("camera:after-stall")
+			pending = rest
 		}
 		if !flush(false) {
 			return
@@ -437,7 +462,7 @@ var resetMu sync.Mutex
 func runD(r *verifsim.Run) {
 	conns := genD(r)
 	for i, c := range conns {
-		r.Set(fmt.Sprintf("conn%d", i), fmt.Sprintf("%s %dx%d@%d framesize=%d frames=%d tail=%d chunks=%v pause=%d/%dmin", c.Model, c.W, c.H, c.Fps, c.FrameSize, c.N, c.Tail, c.Chunks, c.PauseAfter, c.PauseMin))
+		r.Set(fmt.Sprintf("conn%d", i), fmt.Sprintf("%s %dx%d@%d framesize=%d frames=%d tail=%d chunks=%v pause=%d/%dmin stall=%d/%dms", c.Model, c.W, c.H, c.Fps, c.FrameSize, c.N, c.Tail, c.Chunks, c.PauseAfter, c.PauseMin, c.StallAt, c.StallMs))
 	}
 	res := execD(r, conns, true)
 	{
@@ -606,6 +631,9 @@ func runDRace(r *verifsim.Run) {
 			}
 		}
 		c.PauseAfter = -1
+		if c.StallMs > 2500 {
+			c.StallMs = 2500 // real time in the race pass
+		}
 	}
 	for i, c := range conns {
 		r.Set(fmt.Sprintf("conn%d", i), fmt.Sprintf("%s framesize=%d frames=%d tail=%d chunks=%v", c.Model, c.FrameSize, c.N, c.Tail, c.Chunks))
